@@ -30,6 +30,7 @@ type Engine struct {
 	guarded        []*GuardedDecl
 	guardNotes     []string // accessors demoted because their callers are not all visible
 	extObserved []types.Type
+	chanDecls   []*ChanDecl
 	guardAssume    []string // assumptions of the guarded-by check
 	lemmas         []*LemmaDecl
 	globals        []*GlobalFact
@@ -170,6 +171,7 @@ func (e *Engine) addFile(cf *ContractFile) {
 	e.ghosts = append(e.ghosts, cf.Ghosts...)
 	e.invariants = append(e.invariants, cf.Invariants...)
 	e.guarded = append(e.guarded, cf.Guarded...)
+	e.chanDecls = append(e.chanDecls, cf.ChanDecls...)
 	for _, l := range cf.Lemmas {
 		if l.Model == "" {
 			l.Model = cf.DefaultModel
@@ -745,7 +747,11 @@ func (e *Engine) funcModSet(fn *ssa.Function) *ModSet {
 	ms := &ModSet{keys: map[string]bool{}, locals: map[*ssa.Alloc]bool{}}
 	for _, b := range fn.Blocks {
 		for _, ins := range b.Instrs {
+			was := ms.all
 			e.instrMod(ms, fn, ins)
+			if !was && ms.all && os.Getenv("SFDEBUG") == "mod" {
+				fmt.Fprintf(os.Stderr, "modset of %s becomes ALL at %s: %s\n", fn.String(), e.prog.Fset.Position(ins.Pos()), ins.String())
+			}
 		}
 	}
 	e.modInProgress[fn] = false
@@ -859,11 +865,19 @@ func (e *Engine) instrMod(ms *ModSet, fn *ssa.Function, ins ssa.Instruction) {
 		ms.addFresh("CH!closed")
 	case *ssa.MakeClosure, *ssa.MakeInterface:
 		ms.allocs = true
-	case *ssa.Send, *ssa.Select:
-		ms.keys["CH"] = true
+	case *ssa.Send:
+		ms.keys["CH!sends"] = true
+	case *ssa.Select:
+		for _, s := range x.States {
+			if s.Dir == types.SendOnly {
+				ms.keys["CH!sends"] = true
+			} else {
+				ms.keys["CH!recvs"] = true
+			}
+		}
 	case *ssa.UnOp:
 		if x.Op == token.ARROW {
-			ms.keys["CH"] = true
+			ms.keys["CH!recvs"] = true
 		}
 	case *ssa.Convert:
 		if isString(x.X.Type()) && isByteSlice(x.Type()) {
@@ -913,7 +927,8 @@ func (e *Engine) callMod(ms *ModSet, caller *ssa.Function, c *ssa.CallCommon) {
 			ms.keys["MH!"+k] = true
 			ms.keys["ML!"+k] = true
 		case "close":
-			ms.keys["CH"] = true
+			ms.keys["CH!closed"] = true
+			ms.keys["CH!closes"] = true
 		}
 		return
 	case *ssa.Function:
@@ -979,7 +994,14 @@ func (e *Engine) fnMod(ms *ModSet, fn *ssa.Function, ccs ...*ssa.CallCommon) {
 		return
 	case "(*sync.Once).Do":
 		ms.keys["ONCE"] = true
-		ms.all = true // the function value passed in is run
+		// the function value passed in is run: its own effects when it is a function of this repository
+		if cc != nil && len(cc.Args) == 2 {
+			if f := e.repoFuncValue(cc.Args[1]); f != nil {
+				ms.merge(e.funcModSet(f))
+				return
+			}
+		}
+		ms.all = true
 		return
 	}
 	if strings.HasPrefix(full, "sync/atomic.") {
@@ -1138,6 +1160,12 @@ func (e *Engine) computeImmutable() []*Obligation {
 	e.immutableKeys = map[string]string{}
 	var obls []*Obligation
 	for _, d := range e.immutableDecls {
+		if strings.HasPrefix(d.text, "ghost ") {
+			// a ghost constant of its owner (e.g. the maximum a Tongue reports): no code can assign it, and no ghost
+			// update in a contract may (not checked mechanically: the contract files are the trusted side)
+			e.immutableKeys["X!"+strings.TrimSpace(d.text[6:])] = "ghost"
+			continue
+		}
 		dot := strings.LastIndex(d.text, ".")
 		if dot < 0 {
 			continue
@@ -1462,4 +1490,97 @@ func (e *Engine) repoFuncValue(v ssa.Value) *ssa.Function {
 		return fn
 	}
 	return nil
+}
+
+// chanDeclFor: the channel declaration for a channel value that is syntactically the load of field T.f, else nil.
+func (e *Engine) chanDeclFor(v ssa.Value) *ChanDecl {
+	x, ok := v.(*ssa.UnOp)
+	if !ok || x.Op != token.MUL {
+		return nil
+	}
+	fa, ok := x.X.(*ssa.FieldAddr)
+	if !ok {
+		return nil
+	}
+	ot := fa.X.Type().Underlying().(*types.Pointer).Elem()
+	st, ok := ot.Underlying().(*types.Struct)
+	if !ok {
+		return nil
+	}
+	name := st.Field(fa.Field).Name()
+	for _, d := range e.chanDecls {
+		if d.Field != name {
+			continue
+		}
+		if t := e.lookupType(d.Pkg, d.Type); t != nil && types.Identical(t, ot) {
+			return d
+		}
+	}
+	return nil
+}
+
+// chanAliasObligations: closed-world side condition of the channel declarations: every send in the repository on a
+// channel with the element type of a declared channel goes syntactically through the declared field (a send through
+// a copy of the channel value would escape the obligation).
+func (e *Engine) chanAliasObligations() []*Obligation {
+	var out []*Obligation
+	for _, d := range e.chanDecls {
+		ot := e.lookupType(d.Pkg, d.Type)
+		if ot == nil {
+			continue
+		}
+		st, ok := ot.Underlying().(*types.Struct)
+		if !ok {
+			continue
+		}
+		var et types.Type
+		for i := 0; i < st.NumFields(); i++ {
+			if st.Field(i).Name() == d.Field {
+				if ct, ok := st.Field(i).Type().Underlying().(*types.Chan); ok {
+					et = ct.Elem()
+				}
+			}
+		}
+		if et == nil {
+			continue
+		}
+		var bad []string
+		for fn := range e.allFuncs {
+			if !e.inRepo(fn) || strings.HasSuffix(e.prog.Fset.Position(fn.Pos()).Filename, "_test.go") {
+				continue
+			}
+			for _, b := range fn.Blocks {
+				for _, ins := range b.Instrs {
+					var chans []ssa.Value
+					switch x := ins.(type) {
+					case *ssa.Send:
+						chans = append(chans, x.Chan)
+					case *ssa.Select:
+						for _, s := range x.States {
+							if s.Dir == types.SendOnly {
+								chans = append(chans, s.Chan)
+							}
+						}
+					}
+					for _, c := range chans {
+						ct, ok := c.Type().Underlying().(*types.Chan)
+						if !ok || !types.Identical(ct.Elem(), et) {
+							continue
+						}
+						if e.chanDeclFor(c) == nil {
+							bad = append(bad, relName(fn)+" at "+e.prog.Fset.Position(ins.Pos()).String())
+						}
+					}
+				}
+			}
+		}
+		sort.Strings(bad)
+		o := &Obligation{Name: shortPkg(d.Pkg) + "/channel." + d.Type + "." + d.Field + ".no-alias-send", Kind: "channel-alias", Func: shortPkg(d.Pkg), Goal: "true", PC: "true", Structural: true, StructOK: len(bad) == 0, Props: d.Props,
+			Desc: "every send on a channel of element type " + et.String() + " goes through field " + d.Type + "." + d.Field + " (so the declared channel contract is checked at every send)"}
+		if len(bad) > 0 {
+			o.Note = "sends through another channel value: " + strings.Join(bad, "; ")
+		}
+		out = append(out, o)
+	}
+	return out
 }
